@@ -26,7 +26,13 @@ namespace tfel::typetraits {
   template <> struct IsReal<const Sym> { static constexpr bool cond = true; };
   template <> struct IsFundamentalNumericType<Sym> { static constexpr bool cond = true; };
   template <> struct IsFundamentalNumericType<const Sym> { static constexpr bool cond = true; };
+#ifdef VERIF_SYM_BASETYPE_DOUBLE
+  // opt-in (per tracer): code that declares `constexpr base_type<real>` constants and uses them in lambdas without
+  // capture only instantiates when the base type is a fundamental type; double constants still fold into Sym exactly
+  template <> struct BaseType<Sym> { using type = double; };
+#else
   template <> struct BaseType<Sym> { using type = Sym; };
+#endif
   template <> struct AbsType<Sym> { using type = Sym; };
   template <> struct RealPartType<Sym> { using type = Sym; };
   template <> struct Promote<Sym, Sym> { using type = Sym; };
@@ -71,5 +77,11 @@ namespace tfel::math {
     inline int fpclassify(const Sym& s) noexcept { return (s.isconst() && s.iszero()) ? FP_ZERO : FP_NORMAL; }
   }  // namespace ieee754
 }  // namespace tfel::math
+
+// found by argument-dependent lookup from tfel::math templates (stensor::exportTab, write, ...)
+namespace symv {
+  constexpr Sym& base_type_cast(Sym& v) noexcept { return v; }
+  constexpr const Sym& base_type_cast(const Sym& v) noexcept { return v; }
+}  // namespace symv
 
 #endif
